@@ -92,7 +92,7 @@ class LangGen:
                 # (sibling operand types are exercised separately by the C15 check)
                 if rr and (self.is_sub(rr[1], l[1]) or (self.k.get('sibling_sets') and self.lca(l[1], rr[1]))):
                     op = r.choice(['union', 'intersection', 'difference'])
-                    return ({'type': op, 'lhs': l[0], 'rhs': rr[0]}, l[1])
+                    return ({'type': op, 'lhs': l[0], 'rhs': rr[0]}, self.lca(l[1], rr[1]) if op == 'union' else l[1])
             return l
         if c == 'trans':
             # inner expression from t to a subtype of t, so that it can be iterated
